@@ -764,7 +764,22 @@ func (d *BalDriver) Step(x *Exec, n *Node, i int) StepResult {
 	if expLock != nil {
 		want = append(want, Notif{"balance", "Lock", expLock})
 	}
-	if !SameNotifSet(balNotifs, want) {
+	// the statements fix from, to and amount of the announcements; the encoding of the details field and the argument
+	// list of the Lock event are the contract's own business
+	strip := func(l []Notif) []Notif {
+		out := make([]Notif, len(l))
+		for i, nf := range l {
+			out[i] = nf
+			if nf.Name == "TransferX" && len(nf.Args) == 4 {
+				out[i].Args = nf.Args[:3]
+			}
+			if nf.Name == "Lock" {
+				out[i].Args = nil
+			}
+		}
+		return out
+	}
+	if !SameNotifSet(strip(balNotifs), strip(want)) {
 		return viol("notifications", fmt.Sprintf("got %v want %v", balNotifs, want))
 	}
 	nn.M = nm
